@@ -70,10 +70,20 @@ func (m *Module) HandleDisconnect() {
 }
 
 func (m *Module) handleParticipantJoin(ctx context.Context, respond hwebsocket.ResponseSender, msg hwebsocket.Msg) error {
+	// Only the actions of entities that are in the session: for a moment an
+	// entity that is going away with its owner is already out of the session
+	// while its actions are not released yet.
+	entityActions := make([]*vikjapb.EntityAction, 0)
+	for _, ea := range m.state.EntityActions() {
+		if _, ok := m.currentSession.EntityByID(ea.EntityId); ok {
+			entityActions = append(entityActions, ea)
+		}
+	}
+
 	respond.Send(&vikjapb.State{
 		Type:          vikjapb.MsgType_MSG_TYPE_VIKJA_STATE,
 		Timestamp:     timestamppb.Now(),
-		EntityActions: m.state.EntityActions(),
+		EntityActions: entityActions,
 	})
 	return nil
 }
